@@ -137,6 +137,12 @@ class CodeData(DataclassHideDefault):
                 arg = instruction.arg
                 if isinstance(arg, Constant) and isinstance(arg.constant, CodeData):
                     yield arg.constant
+        # Nested code which no instruction references (dead code elimination)
+        for additional_arg in self._additional_args:
+            if isinstance(additional_arg, Constant) and isinstance(
+                additional_arg.constant, CodeData
+            ):
+                yield additional_arg.constant
 
     def all_code_data(self) -> Iterator[CodeData]:
         """
